@@ -1318,3 +1318,283 @@ Proof.
   inv_bind H. destruct x as [e|r]; inversion H; subst. unfold NLI, nlog. cbn.
   eapply raft_new_pres; eassumption.
 Qed.
+
+(* ================================================================== *)
+(* Part D. The application's storage writes (C07's [OSetStore])         *)
+(* ================================================================== *)
+
+(* D1: hard state / conf state / anything but entries and the snapshot point *)
+Lemma write_meta_pres rw l m' :
+  entries m' = entries (store l) -> snap_index m' = snap_index (store l) ->
+  snap_term m' = snap_term (store l) -> trig_log m' = trig_log (store l) ->
+  RepInv rw l -> RepInv rw (set_store l m') /\ abs (set_store l m') = abs l.
+Proof.
+  intros He Hsi Hst Hq HI. destruct HI as [Hs Hqq Hct Hsh Hp Hcm Hap Hb].
+  assert (Hf : first_of m' = first_of (store l)) by (unfold first_of; rewrite He, Hsi; reflexivity).
+  assert (Hn : next_of m' = next_of (store l)) by (unfold next_of; rewrite Hf, He; reflexivity).
+  assert (Habs : abs (set_store l m') = abs l).
+  { unfold abs, stable_part, store_bterm. cbn [set_store store unst]. rewrite Hf, He, Hsi, Hst. reflexivity. }
+  split; [|exact Habs].
+  constructor; rewrite ?Habs; cbn [set_store store unst committed persisted applied]; rewrite ?Hf, ?Hn; auto.
+  - eapply RepInv_ext; [exact He|exact Hsi|exact Hs].
+  - congruence.
+Qed.
+
+(* D2: the unstable entries, no snapshot pending: [store_append_unstable_ok] *)
+Lemma write_entries_pres rw l st' :
+  RepInv rw l -> u_snapshot (unst l) = None -> append (store l) (u_entries (unst l)) = Ok st' ->
+  RepInv rw (set_store l st') /\ abs (set_store l st') = abs l /\ ents_written (set_store l st').
+Proof.
+  intros HI Hn Ha. destruct (store_append_unstable_ok rw l HI Hn) as (st2 & Ha2 & Hr & Habs & _ & Hsk & _).
+  rewrite Ha in Ha2. inversion Ha2; subst st2. splits; auto.
+Qed.
+
+Lemma apply_snapshot_ok_inv m s st' :
+  SInv m -> apply_snapshot m s = Ok (st', SOk tt) -> first_of m <= s_index s.
+Proof.
+  intros Hs H. destruct (N.le_gt_cases (first_of m) (s_index s)) as [Hle|Hgt]; [exact Hle|].
+  rewrite (apply_snapshot_out_of_date m s Hs Hgt) in H. discriminate.
+Qed.
+
+(* D3: the pending snapshot: [store_apply_snapshot_ok] *)
+Lemma write_snapshot_pres rw l s st' :
+  RepInv rw l -> u_snapshot (unst l) = Some s -> apply_snapshot (store l) s = Ok (st', SOk tt) ->
+  RepInv rw (set_store l st') /\ abs (set_store l st') = abs l /\ snap_written (set_store l st')
+  /\ entries st' = [].
+Proof.
+  intros HI Hsn Ha.
+  pose proof (apply_snapshot_ok_inv _ _ _ (ri_store rw l HI) Ha) as Hf.
+  destruct (store_apply_snapshot_ok rw l s HI Hsn Hf) as (Ha2 & Hr & Habs & A & B & C0 & D).
+  rewrite Ha in Ha2. inversion Ha2 as [E]. rewrite <- E in *. splits; auto.
+  unfold snap_written. cbn [set_store store unst]. rewrite Hsn. splits; auto.
+Qed.
+
+(* D4: the unstable entries that follow a pending snapshot already applied to the storage *)
+Lemma write_entries_after_snapshot_pres rw l s st' :
+  RepInv rw l -> u_snapshot (unst l) = Some s -> snap_written l ->
+  append (store l) (u_entries (unst l)) = Ok st' ->
+  RepInv rw (set_store l st') /\ abs (set_store l st') = abs l /\ snap_written (set_store l st')
+  /\ entries st' = u_entries (unst l).
+Proof.
+  intros HI Hsn Hw Ha. unfold snap_written in Hw. rewrite Hsn in Hw. destruct Hw as (W1 & W2 & W3 & W4).
+  destruct (u_entries (unst l)) as [|e0 t] eqn:Eu.
+  - cbn in Ha. inversion Ha; subst st'.
+    replace (set_store l (store l)) with l by (destruct l; reflexivity).
+    splits; auto. unfold snap_written. rewrite Hsn, Eu. splits; auto.
+  - pose proof HI as HI0. destruct HI0 as [Hs Hq Hct Hsh Hp Hcm Hap Hb]. rewrite Hsn in Hsh.
+    destruct Hsh as [Ho Hsc]. rewrite Eu in Hct.
+    assert (Hi0 : e_index e0 = u_offset (unst l)) by (destruct Hct; assumption).
+    assert (Hbd : s_index s + N.of_nat (length (e0 :: t)) < u64_max).
+    { unfold abs, ll_last in Hb. rewrite Hsn, Eu in Hb. cbn [ll_base ll_ents] in Hb. exact Hb. }
+    pose proof (first_le_next (store l)) as Hfn.
+    destruct (append_ok (store l) e0 t Hs ltac:(rewrite Hi0; exact Hct) ltac:(lia) ltac:(lia))
+      as (Ha2 & Hs' & Hf').
+    rewrite Ha in Ha2. injection Ha2 as E.
+    assert (Hent : entries st' = e0 :: t).
+    { rewrite E. cbn [entries set_entries]. replace (N.to_nat (e_index e0 - first_of (store l))) with O by lia.
+      reflexivity. }
+    assert (Hf2 : first_of st' = first_of (store l)) by (rewrite E; exact Hf').
+    assert (Habs : abs (set_store l st') = abs l).
+    { unfold abs. cbn [set_store unst]. rewrite Hsn. reflexivity. }
+    splits; auto.
+    + constructor; rewrite ?Habs; cbn [set_store store unst committed persisted applied]; rewrite ?Hsn, ?Eu; auto.
+      * rewrite E. exact Hs'.
+      * rewrite E. exact Hq.
+      * destruct Hp as [Hp1 Hp2]. split; [exact Hp1|]. unfold next_of. rewrite Hf2, Hent. cbn [length] in *. lia.
+    + unfold snap_written. cbn [set_store store unst]. rewrite Hsn, Eu.
+      splits; try (rewrite E; assumption); [congruence|discriminate].
+Qed.
+
+(* D5: compaction at or below applied: [store_compact_ok] / [store_compact_noop] *)
+Lemma write_compact_pres rw l ci st' :
+  RepInv rw l -> u_snapshot (unst l) = None -> applied l <= committed l ->
+  ci <= applied l -> ci <= u_offset (unst l) -> ci < next_of (store l) ->
+  compact (store l) ci = Ok st' ->
+  RepInv rw (set_store l st') /\ last_index (set_store l st') = last_index l
+  /\ preserves_upto (committed l) (abs l) (abs (set_store l st')).
+Proof.
+  intros HI Hn Hac Hca Hco Hcn Hc.
+  assert (HF : RepInv false l) by (apply RepInv_close_window; [apply (RepInv_true rw); exact HI|exact Hac]).
+  destruct (N.le_gt_cases ci (first_of (store l))) as [Hle|Hgt].
+  - rewrite (store_compact_noop false l ci HF Hle) in Hc. inversion Hc; subst st'.
+    replace (set_store l (store l)) with l by (destruct l; reflexivity).
+    splits; auto. apply preserves_refl. reflexivity.
+  - destruct (store_compact_ok l ci HF Hn Hgt Hca Hco Hcn) as (st2 & Hc2 & Hr & Habs & _).
+    rewrite Hc in Hc2. inversion Hc2; subst st2. splits.
+    + apply RepInv_any. exact Hr.
+    + rewrite (abs_last false _ Hr), (abs_last false _ HF), Habs. unfold ll_last. cbn [ll_base ll_ents].
+      rewrite skipn_length. unfold abs. rewrite Hn. cbn [ll_base ll_ents].
+      destruct HF as [Hs _ _ Hsh _ _ _ _]. rewrite Hn in Hsh. destruct Hsh as (Hr0 & _ & _).
+      rewrite app_length, (stable_part_length l Hr0). pose proof (first_pos _ Hs). lia.
+    + eapply committed_immutable_compact; eassumption.
+Qed.
+
+(* the writes of the Ready contract, as one relation on (log, new store) *)
+Inductive store_write (l : raft_log) : MemStorage.mem -> Prop :=
+| SW_meta m' :
+    entries m' = entries (store l) -> snap_index m' = snap_index (store l) ->
+    snap_term m' = snap_term (store l) -> trig_log m' = trig_log (store l) -> store_write l m'
+| SW_entries st' :
+    u_snapshot (unst l) = None -> append (store l) (u_entries (unst l)) = Ok st' -> store_write l st'
+| SW_snapshot s st' :
+    u_snapshot (unst l) = Some s -> apply_snapshot (store l) s = Ok (st', SOk tt) -> store_write l st'
+| SW_entries_after_snapshot s st' :
+    u_snapshot (unst l) = Some s -> snap_written l ->
+    append (store l) (u_entries (unst l)) = Ok st' -> store_write l st'
+| SW_compact ci st' :
+    u_snapshot (unst l) = None -> applied l <= committed l ->
+    ci <= applied l -> ci <= u_offset (unst l) -> ci < next_of (store l) ->
+    compact (store l) ci = Ok st' -> store_write l st'.
+
+Theorem store_write_pres rw l st' :
+  store_write l st' -> RepInv rw l ->
+  RepInv rw (set_store l st') /\ last_index (set_store l st') = last_index l
+  /\ preserves_upto (committed l) (abs l) (abs (set_store l st')).
+Proof.
+  intros W HI.
+  assert (Hsame : forall st', RepInv rw (set_store l st') -> abs (set_store l st') = abs l ->
+            RepInv rw (set_store l st') /\ last_index (set_store l st') = last_index l
+            /\ preserves_upto (committed l) (abs l) (abs (set_store l st'))).
+  { intros st2 Hr Habs. splits; auto.
+    - rewrite (abs_last rw _ Hr), Habs. symmetry. apply (abs_last rw). exact HI.
+    - apply preserves_refl. exact Habs. }
+  destruct W.
+  - destruct (write_meta_pres rw l m' H H0 H1 H2 HI) as [A B]. auto.
+  - destruct (write_entries_pres rw l st' HI H H0) as (A & B & _). auto.
+  - destruct (write_snapshot_pres rw l s st' HI H H0) as (A & B & _). auto.
+  - destruct (write_entries_after_snapshot_pres rw l s st' HI H H0 H1) as (A & B & _). auto.
+  - eapply write_compact_pres; eassumption.
+Qed.
+
+(* ---- at node level: what a Ready told the application to write ---- *)
+Definition set_store_node (n : rawnode) (m : MemStorage.mem) : rawnode :=
+  n <| rn_raft := (rn_raft n) <| r_log := set_store (r_log (rn_raft n)) m |> |>.
+
+Lemma exec_set_store n m : exec n (OSetStore m) = Ok (set_store_node n m, no_out).
+Proof. reflexivity. Qed.
+
+Theorem set_store_pres rw n m :
+  store_write (nlog n) m -> NLI rw n -> NLI rw (set_store_node n m).
+Proof. intros W HI. exact (proj1 (store_write_pres rw _ _ W HI)). Qed.
+
+(* the application persists a Ready: applies its snapshot (when not empty), then
+   appends its entries; None = the storage refused the snapshot (out of date) *)
+Definition write_ready (st : MemStorage.mem) (rd : ready) : Res (option MemStorage.mem) :=
+  if s_index (rd_snapshot rd) =? 0 then st' <- append st (rd_entries rd) ;; Ok (Some st')
+  else
+    r <- apply_snapshot st (rd_snapshot rd) ;;
+    match snd r with
+    | SErr _ => Ok None
+    | SOk _ => st' <- append (fst r) (rd_entries rd) ;; Ok (Some st')
+    end.
+
+Lemma last_snoc {A} (l : list A) x d : List.last (l ++ [x]) d = x.
+Proof. apply last_last. Qed.
+
+Lemma fold_records_single rr number :
+  snd (fold_records [rr] number 0 0 0)
+  = if number <? rr_number rr then 0
+    else match rr_snapshot rr with Some (i, _) => i | None => 0 end.
+Proof.
+  cbn [fold_records]. destruct (number <? rr_number rr); [reflexivity|].
+  destruct (rr_snapshot rr) as [[i t]|]; destruct (rr_last_entry rr) as [[a b]|]; reflexivity.
+Qed.
+
+(* (2): the Ready is written as told => the invariant holds across the write and the
+   preconditions of advance / advance_append / advance_append_async are met *)
+Theorem ready_write_pres rw n n1 rd st' :
+  rn_ready n = Ok (n1, rd) -> NLI rw n ->
+  (forall s, u_snapshot (unst (nlog n)) = Some s -> s_index s <> 0) ->
+  write_ready (store (nlog n)) rd = Ok (Some st') ->
+  let n2 := set_store_node n1 st' in
+  NLI rw n2 /\ abs (nlog n2) = abs (nlog n) /\ commit_pre n2
+  /\ (rn_records n = [] -> persist_pre n2 (rn_max_number n2)).
+Proof.
+  intros H HI Hs0 Hw n2.
+  destruct (ready_entries_are_unstable _ _ _ H)
+    as (Eents & _ & _ & Emax & _ & _ & _ & _ & Esnap & (recs & Hrecs & _ & Erec) & _ & _ & Elog & _).
+  fold (nlog n1) in Elog. fold (nlog n) in Elog, Eents, Esnap, Erec.
+  assert (Hrec2 : rn_records n2 = rn_records n1) by reflexivity.
+  assert (Hmax2 : rn_max_number n2 = rn_max_number n1) by reflexivity.
+  assert (Hlog2 : nlog n2 = set_store (nlog n) st') by (unfold n2, nlog, set_store_node; cbn; fold (nlog n1); rewrite Elog; reflexivity).
+  unfold NLI, LI in *. fold (nlog n) in HI. fold (nlog n2).
+  assert (Hsingle : rn_records n = [] -> recs = []).
+  { intros E. unfold ready_records in Hrecs. destruct (_ && _); [apply Hrecs|rewrite E in Hrecs; exact Hrecs]. }
+  unfold write_ready in Hw. rewrite Esnap, Eents in Hw.
+  unfold commit_pre, persist_pre. rewrite Hrec2, Hmax2, Erec, last_snoc, Hlog2, Emax.
+  cbn [rr_snapshot rr_last_entry].
+  destruct (u_snapshot (unst (nlog n))) as [s|] eqn:Es.
+  - (* snapshot (and possibly entries after it) *)
+    specialize (Hs0 s eq_refl). destruct (s_index s =? 0) eqn:E0; [lia|].
+    inv_bind Hw. destruct x as [st1 res]. cbn [fst snd] in Hw. destruct res as [[]|e]; [|discriminate].
+    inv_bind Hw. inversion Hw; subst x; clear Hw.
+    destruct (write_snapshot_pres rw _ _ _ HI Es Hx) as (A1 & B1 & C1 & _).
+    assert (Es1 : u_snapshot (unst (set_store (nlog n) st1)) = Some s) by exact Es.
+    destruct (write_entries_after_snapshot_pres rw _ _ _ A1 Es1 C1 Hx0) as (A2 & B2 & C2 & D2).
+    change (set_store (set_store (nlog n) st1) st') with (set_store (nlog n) st') in *.
+    cbn [set_store unst] in D2.
+    splits; auto.
+    + congruence.
+    + intros _. unfold ents_written. cbn [set_store store unst].
+      unfold snap_written in C2. cbn [set_store store unst] in C2. rewrite Es in C2.
+      destruct C2 as (_ & _ & Hf & _).
+      pose proof (ri_shape rw _ HI) as Hsh. rewrite Es in Hsh. destruct Hsh as [Ho _].
+      rewrite Hf, Ho. replace (N.to_nat (s_index s + 1 - (s_index s + 1))) with O by lia. exact D2.
+    + intros Er. rewrite (Hsingle Er). cbn [app]. rewrite fold_records_single. cbn [rr_number rr_snapshot option_map].
+      rewrite N.ltb_irrefl. intros _.
+      unfold snap_written in C2. cbn [set_store store unst] in C2. rewrite Es in C2.
+      destruct C2 as (_ & _ & Hf & _). cbn [set_store store].
+      pose proof (first_le_next st'). lia.
+  - (* entries only *)
+    cbn [snap_default s_index] in Hw. change (0 =? 0) with true in Hw. cbn match in Hw.
+    inv_bind Hw. inversion Hw; subst x; clear Hw.
+    destruct (write_entries_pres rw _ _ HI Es Hx) as (A & B & C0).
+    splits; auto.
+    + intros Hc. cbn [option_map] in Hc. congruence.
+    + intros Er. rewrite (Hsingle Er). cbn [app]. rewrite fold_records_single. cbn [rr_number rr_snapshot option_map].
+      rewrite N.ltb_irrefl. intros Hp. lia.
+Qed.
+
+(* the write itself cannot panic and is not refused, provided the storage is not
+   ahead of the pending snapshot *)
+Theorem write_ready_total rw n n1 rd :
+  rn_ready n = Ok (n1, rd) -> NLI rw n ->
+  (forall s, u_snapshot (unst (nlog n)) = Some s ->
+     s_index s <> 0 /\ first_of (store (nlog n)) <= s_index s) ->
+  exists st', write_ready (store (nlog n)) rd = Ok (Some st').
+Proof.
+  intros H HI Hs0.
+  destruct (ready_entries_are_unstable _ _ _ H) as (Eents & _ & _ & _ & _ & _ & _ & _ & Esnap & _).
+  fold (nlog n) in Eents, Esnap. unfold NLI, LI in HI. fold (nlog n) in HI.
+  unfold write_ready. rewrite Esnap, Eents.
+  destruct (u_snapshot (unst (nlog n))) as [s|] eqn:Es.
+  - destruct (Hs0 s eq_refl) as [Hz Hf]. destruct (s_index s =? 0) eqn:E0; [lia|].
+    destruct (store_apply_snapshot_ok rw _ s HI Es Hf) as (Ha & Hr & _ & A & B & C0 & D).
+    rewrite Ha. cbn [bind fst snd].
+    set (l1 := set_store (nlog n) (apply_snapshot_result (store (nlog n)) s)) in *.
+    destruct (u_entries (unst (nlog n))) as [|e0 t] eqn:Eu; [cbn; eauto|].
+    pose proof (ri_contig rw _ HI) as Hct. rewrite Eu in Hct.
+    pose proof (ri_shape rw _ HI) as Hsh. rewrite Es in Hsh. destruct Hsh as [Ho _].
+    assert (Hi0 : e_index e0 = u_offset (unst (nlog n))) by (destruct Hct; assumption).
+    pose proof (ri_bound rw _ HI) as Hb. unfold abs, ll_last in Hb. rewrite Es, Eu in Hb. cbn [ll_base ll_ents] in Hb.
+    pose proof (first_le_next (apply_snapshot_result (store (nlog n)) s)) as Hfn.
+    destruct (append_ok (apply_snapshot_result (store (nlog n)) s) e0 t (ri_store rw _ Hr)
+                ltac:(rewrite Hi0; exact Hct) ltac:(lia) ltac:(lia)) as (Ha2 & _).
+    rewrite Ha2. cbn [bind]. eauto.
+  - cbn [snap_default s_index]. change (0 =? 0) with true. cbn match.
+    destruct (store_append_unstable_ok rw _ HI Es) as (st' & Ha & _). rewrite Ha. cbn [bind]. eauto.
+Qed.
+
+(* the synchronous cycle: ready, write, advance_append / advance *)
+Theorem ready_write_advance_append rw n n1 rd st' n3 lr :
+  rn_ready n = Ok (n1, rd) -> NLI rw n -> rn_records n = [] ->
+  (forall s, u_snapshot (unst (nlog n)) = Some s -> s_index s <> 0) ->
+  write_ready (store (nlog n)) rd = Ok (Some st') ->
+  rn_advance_append (set_store_node n1 st') rd = Ok (n3, lr) ->
+  NLI rw n3 /\ abs (nlog n3) = abs (nlog n).
+Proof.
+  intros H HI Er Hs0 Hw Ha.
+  destruct (ready_write_pres rw _ _ _ _ H HI Hs0 Hw) as (A & B & C0 & D).
+  destruct (rn_advance_append_pres rw _ _ _ _ Ha (conj C0 (D Er)) A) as (A3 & B3 & _).
+  split; [exact A3|congruence].
+Qed.
